@@ -68,3 +68,39 @@ pub fn drv_c12_worker(term: &Terminator, me: usize) {
         }
     }
 }
+
+// ---------------------------------------------------------------------------------------------
+// Variant "marking": the worker loop itself is the REAL `MarkingTask::{run, pop, trace,
+// defensive_push}` from gc/swiper/marking.rs; only the leaves below it are environment: the
+// segment / deque / injector operations (python models over the same abstract pool) and the
+// object graph (`Object::visit_reference_fields` is redirected to `drv_c12_visit_fields`).
+pub struct MarkingTask;
+pub struct Slot;
+pub struct Obj;
+pub struct Addr;
+
+impl MarkingTask {
+    #[inline(never)]
+    pub fn run(&mut self) { unimplemented!() }
+}
+
+stub! {
+    fn verif_child_exists() -> bool;
+    fn verif_slot() -> Slot;
+}
+
+/// stands in for `Object::visit_reference_fields`: the object has some (budget-bounded) number of
+/// reference fields; the closure is the real one from `MarkingTask::run`
+pub fn drv_c12_visit_fields<F: FnMut(Slot)>(_obj: Obj, _shape_base: Addr, mut f: F) {
+    loop {
+        if !verif_child_exists() {
+            break;
+        }
+        f(verif_slot());
+    }
+}
+
+pub fn drv_c12_marking_worker(task: &mut MarkingTask, me: usize) {
+    task.run();
+    verif_terminated(me);
+}
